@@ -191,6 +191,21 @@ class Suite:
         name, body = doc[0]
         out.append(("unknown_name", JObj([(name + "_zz", body)])))
         out.append(("unknown_name2", JObj([("zz" + name, body)])))
+        # names one edit away from the real one (another first / last letter of the same length, a proper prefix, another
+        # case): whatever decides which part owns a name must tell them apart
+        alt = lambda ch: "q" if ch != "q" else "w"
+        if name:
+            out.append(("near_name_first", JObj([(alt(name[0]) + name[1:], body)])))
+            out.append(("near_name_last", JObj([(name[:-1] + alt(name[-1]), body)])))
+            if len(name) > 1:
+                out.append(("near_name_prefix", JObj([(name[:-1], body)])))
+            if name.upper() != name:
+                out.append(("near_name_case", JObj([(name[0].upper() + name[1:], body)])))
+        # an unknown name in a document longer than any plausible buffer or quotation limit, in multi-byte characters at
+        # every alignment (error texts that quote the document must not cut a character)
+        pad = rng.randrange(3)
+        out.append(("unknown_name_long", JObj([("x" * pad + "\u20ac" * rng.choice([90, 130, 400]) + name, body)])))
+        out.append(("unknown_name_long_ascii", JObj([(name + "_" + "z" * rng.choice([250, 255, 256, 257, 1000]), body)])))
         out.append(("zero_keys", JObj([])))
         # the hidden generic-carrier variant must not be a message
         out.append(("phantom_name", JObj([("__phantom", None)])))
@@ -394,6 +409,18 @@ class Suite:
             wc = wrapper_err_class(err)
             if label.startswith("unknown_name") and not wc.startswith("unsupported:"):
                 run.oracle_fail("unknown message name is not reported as unsupported with the list of messages: %s" % err[:300], desc)
+            elif label.startswith("near_name") and isinstance(d, JObj) and len(d) == 1 and not wc.startswith("unsupported:"):
+                # a name that no part of this kind lists (compared with the published tables of all parts) is unknown too
+                known, complete = set(), True
+                for pname, _, iface in self.parts(p):
+                    ms = [m for m in self.methods_of(p, iface) if m.kind == c.kind]
+                    names = self.wire_names.get((c.prog, pname, c.kind), set())
+                    complete = complete and len(names) == len(ms) and not any(
+                        a.sv and a.sv[0] == "attr" and ("alias" in a.sv[1] or "rename" in a.sv[1]) for m in ms for a in m.extra_attrs)
+                    known |= set(names)
+                if complete and d[0][0] not in known:
+                    run.oracle_fail("the name `%s` is a message of no part (%s) but is not reported as unsupported with the list of "
+                                    "messages: %s" % (d[0][0], sorted(known), err[:300]), desc)
         if label == "well_formed" and len(accepting) != 1:
             run.oracle_fail("a well-formed message is accepted by %d parts" % len(accepting), desc)
         # model comparison
